@@ -3,6 +3,7 @@ package vc
 import (
 	"fmt"
 	"go/ast"
+	"go/types"
 	"math/big"
 	"regexp"
 	"strconv"
@@ -14,27 +15,33 @@ import (
 
 // Contract is the parsed //@ block of one function (or of a family of functions matched by a pattern).
 type Contract struct {
-	Key        string // canonical function key, or pattern text
-	Pkg        string // short package path the contract was written in
-	Pattern    *regexp.Regexp
-	Props      []string
-	Requires   []*Clause
-	Ensures    []*Clause
-	Invariants map[int][]*Clause
-	Decreases  map[int]*Clause
-	Assigns    []*Clause // nil = unspecified; a clause with Text "nothing" = pure
-	HasAssigns bool
-	NoInline   bool
-	Inline     bool // execute the body in place at call sites (with this contract's loop annotations) instead of using the contract
-	Unroll     map[int]int
-	File       string
-	Line       int
-	Lets       []*Clause // let name = expr (evaluated at entry)
-	Cases      []*Clause // cover: each must be satisfiable together with the requires
-	Trusted    bool
-	Nilable    map[string]bool
-	CallsEns   map[string][]*Clause // assumed results of callbacks (result0, result1, ...)
-	Calls      map[string][]*Clause // function-typed parameter -> requirements on its arguments (arg0, arg1, ...)
+	Key         string // canonical function key, or pattern text
+	Pkg         string // short package path the contract was written in
+	Pattern     *regexp.Regexp
+	Props       []string
+	Requires    []*Clause
+	Ensures     []*Clause
+	Invariants  map[int][]*Clause
+	Decreases   map[int]*Clause
+	Assigns     []*Clause // nil = unspecified; a clause with Text "nothing" = pure
+	HasAssigns  bool
+	NoInline    bool
+	Inline      bool // execute the body in place at call sites (with this contract's loop annotations) instead of using the contract
+	Unroll      map[int]int
+	File        string
+	Line        int
+	Lets        []*Clause // let name = expr (evaluated at entry)
+	Cases       []*Clause // cover: each must be satisfiable together with the requires
+	Trusted     bool
+	Nilable     map[string]bool
+	Pure        bool            // calls are modelled as applications of an uninterpreted function of the arguments
+	Expand      map[string]bool // callees (keys) whose bodies are executed in place although they are pure / have a contract
+	IfaceType   types.Type      // for interface-level contracts
+	IfaceMethod string
+	IfaceSig    *types.Signature
+	TypesPkg    *types.Package
+	CallsEns    map[string][]*Clause // assumed results of callbacks (result0, result1, ...)
+	Calls       map[string][]*Clause // function-typed parameter -> requirements on its arguments (arg0, arg1, ...)
 }
 
 type Clause struct {
@@ -98,6 +105,30 @@ func (w *World) parseContractFile(pkgShort, filename string, file *ast.File, p *
 				case "iface":
 					cur.Key = "iface " + pkgShort + "." + rest
 					w.Contracts[cur.Key] = cur
+					// rest = Type.Method
+					dot := strings.LastIndex(rest, ".")
+					if dot < 0 {
+						return fmt.Errorf("%s:%d: iface needs Type.Method", filename, line)
+					}
+					tn, ok := p.Types.Scope().Lookup(rest[:dot]).(*types.TypeName)
+					if !ok {
+						return fmt.Errorf("%s:%d: unknown interface type %s", filename, line, rest[:dot])
+					}
+					it, ok := tn.Type().Underlying().(*types.Interface)
+					if !ok {
+						return fmt.Errorf("%s:%d: %s is not an interface", filename, line, rest[:dot])
+					}
+					cur.IfaceType = tn.Type()
+					cur.IfaceMethod = rest[dot+1:]
+					cur.TypesPkg = p.Types
+					for i := 0; i < it.NumMethods(); i++ {
+						if it.Method(i).Name() == cur.IfaceMethod {
+							cur.IfaceSig = it.Method(i).Type().(*types.Signature)
+						}
+					}
+					if cur.IfaceSig == nil {
+						return fmt.Errorf("%s:%d: no method %s", filename, line, rest)
+					}
 				case "funcs":
 					re, err := regexp.Compile(rest)
 					if err != nil {
@@ -267,6 +298,15 @@ func (c *Contract) addClause(word, rest string, line int) error {
 		}
 		for _, n := range strings.Split(rest, ",") {
 			c.Nilable[strings.TrimSpace(n)] = true
+		}
+	case "pure":
+		c.Pure = true
+	case "expand":
+		if c.Expand == nil {
+			c.Expand = map[string]bool{}
+		}
+		for _, k := range strings.Split(rest, ",") {
+			c.Expand[strings.TrimSpace(k)] = true
 		}
 	case "inline":
 		c.Inline = true
